@@ -129,6 +129,42 @@ fn check_pair(a: &Value, b: &Value, out: &mut Vec<Violation>, obs: &mut Obs) {
     }
 }
 
+/// the same laws on the WHERE comparison operators: `a op b` evaluated by the engine's expression evaluator on literal
+/// operands. For two non-NULL values of one type (or INT with REAL) all six operators answer, exactly one of <, =, > holds,
+/// <= / >= / != are their combinations and the answers agree with `Value`'s own order (INT with REAL: with the numeric order).
+fn check_where_pair(a: &Value, b: &Value, out: &mut Vec<Violation>, obs: &mut Obs) {
+    use sqlgrep::execution::execution_engine::{ExecutionConfig, ExecutionEngine};
+    use sqlgrep::model::{CompareOperator, ExpressionTree, SelectStatement, Statement};
+    if a.is_null() || b.is_null() { return; }
+    let numeric_mix = matches!((a, b), (Value::Int(_), Value::Float(_)) | (Value::Float(_), Value::Int(_)));
+    if !numeric_mix && a.value_type() != b.value_type() { return; }
+    thread_local! { static TABLES: sqlgrep::data_model::Tables = crate::eng::tables_from(crate::monitors::c12::EVERYLINE).ok().expect("everyline table"); }
+    // one statement per operator (an error of one operator must not hide the others): SELECT <a op b> FROM everyline, one input line
+    let ask = |op: CompareOperator| -> Result<Option<bool>, String> {
+        let tree = ExpressionTree::Compare { operator: op, left: Box::new(ExpressionTree::Value(a.clone())), right: Box::new(ExpressionTree::Value(b.clone())) };
+        let stmt = Statement::Select(SelectStatement { projections: vec![("p0".to_owned(), tree)], from: "everyline".to_owned(), filename: None, filter: None, join: None, limit: None, distinct: false });
+        let r = TABLES.with(|tables| guard(|| { let mut engine = ExecutionEngine::new(tables, &stmt); engine.execute("x".to_owned(), &ExecutionConfig::default()).map(|o| o.result_row.and_then(|rr| rr.data.into_iter().next()).and_then(|row| row.columns.into_iter().next())).map_err(|e| e.to_string()) }));
+        match r { Ok(Ok(Some(Value::Bool(x)))) => Ok(Some(x)), Ok(Ok(Some(Value::Null))) => Ok(None), Ok(Ok(Some(other))) => Err(format!("value {}", show(&other))), Ok(Ok(None)) => Err("no row".into()), Ok(Err(e)) => Err(format!("error {}", e)), Err(p) => Err(p.describe()) }
+    };
+    obs.evals += 1;
+    obs.hit("where-pair");
+    let r: Vec<Result<Option<bool>, String>> = vec![ask(CompareOperator::LessThan), ask(CompareOperator::Equal), ask(CompareOperator::GreaterThan), ask(CompareOperator::LessThanOrEqual), ask(CompareOperator::GreaterThanOrEqual), ask(CompareOperator::NotEqual)];
+    let mut push = |law: &str, detail: String| { let sig = pair_sig(law, a, b); if !out.iter().any(|v| v.sig == sig) { out.push(Violation::new(sig, detail)); } };
+    let answers: Option<Vec<bool>> = r.iter().map(|x| match x { Ok(Some(v)) => Some(*v), _ => None }).collect();
+    let Some(v) = answers else { push("where-no-answer", format!("a={} b={}: < = > <= >= != answered {:?}", show(a), show(b), r)); return; };
+    let (lt, eq, gt, le, ge, ne) = (v[0], v[1], v[2], v[3], v[4], v[5]);
+    if (lt as u8) + (eq as u8) + (gt as u8) != 1 { push("where-trichotomy", format!("a={} b={}: a<b={} a=b={} a>b={}", show(a), show(b), lt, eq, gt)); return; }
+    if le != (lt || eq) || ge != (gt || eq) || ne == eq { push("where-derived-operators", format!("a={} b={}: < {} = {} > {} <= {} >= {} != {}", show(a), show(b), lt, eq, gt, le, ge, ne)); return; }
+    let got = if lt { Ordering::Less } else if eq { Ordering::Equal } else { Ordering::Greater };
+    // INT with REAL: by numeric value - exactly, or after converting the INT to REAL (PostgreSQL's rule, what C03 accepts too)
+    let wants: Vec<Ordering> = match (a, b) {
+        (Value::Int(i), Value::Float(f)) => cmp_int_real(*i, f.0).into_iter().chain(std::iter::once(Value::Float(sqlgrep::model::Float(*i as f64)).cmp(b))).collect(),
+        (Value::Float(f), Value::Int(i)) => cmp_int_real(*i, f.0).map(|o| o.reverse()).into_iter().chain(std::iter::once(a.cmp(&Value::Float(sqlgrep::model::Float(*i as f64))))).collect(),
+        _ => vec![a.cmp(b)],
+    };
+    if !wants.contains(&got) { push("where-vs-order", format!("a={} b={}: WHERE says {:?}, the value order says {:?}", show(a), show(b), got, wants)); }
+}
+
 fn check_reflexive(a: &Value, out: &mut Vec<Violation>) {
     #[allow(clippy::eq_op)]
     if !(a == a) || a.cmp(a) != Ordering::Equal {
@@ -296,7 +332,7 @@ fn random_value(rng: &mut Rng, depth: u32) -> J {
 impl Monitor for C16 {
     fn id(&self) -> &'static str { "C16" }
     fn rule(&self) -> &'static str {
-        "law checker: every pool value as anchor x all pool pairs (eq<=>cmp, antisymmetry, partial_cmp==cmp, operators, hash under SipHash and FNV, INT/REAL numeric order, per-type value order) and all pool triples (transitivity); random triples of nested values; consumer level: GROUP BY / DISTINCT / COUNT(DISTINCT) / array_unique / MIN / MAX / JOIN over REAL keys incl. -0.0, inf, NaN, with small and >128-element sets. Non-trivial = anchor case (each covers >= 2 distinct values of one type and INT-REAL pairs) or consumer case with >= 2 classes and a special REAL; distinct by case hash"
+        "law checker: every pool value as anchor x all pool pairs (eq<=>cmp, antisymmetry, partial_cmp==cmp, operators, hash under SipHash and FNV, INT/REAL numeric order, per-type value order; the six WHERE operators evaluated by the engine on the pair: all answer, trichotomy, derived operators, agreement with the value order) and all pool triples (transitivity); random triples of nested values; consumer level: GROUP BY / DISTINCT / COUNT(DISTINCT) / array_unique / MIN / MAX / JOIN over REAL keys incl. -0.0, inf, NaN, with small and >128-element sets. Non-trivial = anchor case (each covers >= 2 distinct values of one type and INT-REAL pairs) or consumer case with >= 2 classes and a special REAL; distinct by case hash"
     }
     fn assumptions(&self) -> Vec<String> { vec!["reference equality: numbers by value, -0.0 = 0.0, NaN equal to itself and to nothing else".into()] }
     fn sizes(&self, tier: Tier) -> Sizes { match tier { Tier::Quick => Sizes { cases: 6_000, min_nontrivial: 60 }, Tier::Thorough => Sizes { cases: 400_000, min_nontrivial: 60 } } }
@@ -320,6 +356,7 @@ impl Monitor for C16 {
                 check_reflexive(&a, &mut vs);
                 for b in &pool {
                     check_pair(&a, b, &mut vs, obs);
+                    check_where_pair(&a, b, &mut vs, obs);
                     for c in &pool { check_triple(&a, b, c, &mut vs, obs); }
                 }
                 obs.nontrivial();
@@ -331,7 +368,7 @@ impl Monitor for C16 {
                 if vals.len() != 3 { return Verdict::Inconclusive("bad-spec".into()); }
                 let mut vs = Vec::new();
                 for x in &vals { check_reflexive(x, &mut vs); }
-                for x in &vals { for y in &vals { check_pair(x, y, &mut vs, obs); } }
+                for x in &vals { for y in &vals { check_pair(x, y, &mut vs, obs); check_where_pair(x, y, &mut vs, obs); } }
                 for p in [[0, 1, 2], [0, 2, 1], [1, 0, 2], [1, 2, 0], [2, 0, 1], [2, 1, 0]] { check_triple(&vals[p[0]], &vals[p[1]], &vals[p[2]], &mut vs, obs); }
                 let (r0, r1) = (RV::from_engine(&vals[0]), RV::from_engine(&vals[1]));
                 if r0.ty() == r1.ty() && eq_ref(&r0, &r1) != Some(true) { obs.nontrivial(); }
